@@ -8,11 +8,21 @@ A case is one call of `edm.compute`:
 EDS node ids are the strings '_<id>' on the Python side (an injective spelling of the model's numbers).
 The implementation is run with `fractions.Fraction` weights, so every number compared with the model is exact.
 """
+import argparse
+import contextlib
 import copy
+import io
 import itertools
 import json
+import logging
+import os
 import random
+import shutil
+import sys
+import tempfile
+import warnings
 from fractions import Fraction
+from pathlib import Path
 
 from .common import paths, tables
 from .common.runner import Check
@@ -35,16 +45,27 @@ def uncps(a):
 # building the real objects
 
 def mk_lnk(l):
+    """the Lnk of a node; every second one (by parity of the numbers) through the string constructor
+    `Lnk('<0:3>')` the codecs' users write, the others through the class methods"""
     if l is None:
         return None
+    text = (l[1] + l[2]) % 2 == 1
     if l[0] == "c":
-        return Lnk.charspan(l[1], l[2])
+        return Lnk("<%d:%d>" % (l[1], l[2])) if text else Lnk.charspan(l[1], l[2])
     k = abs(l[1]) % 3
     if k == 0:
-        return Lnk.chartspan(l[1], l[2])
+        return Lnk("<%d#%d>" % (l[1], l[2])) if text else Lnk.chartspan(l[1], l[2])
     if k == 1:
-        return Lnk.tokens([l[1], l[2]])
-    return Lnk.edge(l[1])
+        return Lnk("<%d %d>" % (l[1], l[2])) if text else Lnk.tokens([l[1], l[2]])
+    return Lnk("<@%d>" % l[1]) if text else Lnk.edge(l[1])
+
+
+def _no_lnk(node, n):
+    """a node built without lnk has `Lnk.default()`; every second one gets `lnk = None` instead (cfrom/cto
+    then take their AttributeError branch)"""
+    if n["lnk"] is None and n["id"] % 2:
+        node.lnk = None
+    return node
 
 
 def eid(k):
@@ -57,20 +78,24 @@ def build(G):
     if G["t"] == "eds":
         nodes = []
         for n in G["nodes"]:
-            nodes.append(_eds.Node(eid(n["id"]), uncps(n["pred"]), type=n.get("type"),
-                                   edges={uncps(r): eid(t) for r, t in n["edges"]},
-                                   properties={uncps(f): uncps(v) for f, v in n["props"]},
-                                   carg=None if n["carg"] is None else uncps(n["carg"]),
-                                   lnk=mk_lnk(n["lnk"])))
+            nodes.append(_no_lnk(_eds.Node(eid(n["id"]), uncps(n["pred"]), type=n.get("type"),
+                                           edges={uncps(r): eid(t) for r, t in n["edges"]},
+                                           properties={uncps(f): uncps(v) for f, v in n["props"]},
+                                           carg=None if n["carg"] is None else uncps(n["carg"]),
+                                           lnk=mk_lnk(n["lnk"])), n))
         return _eds.EDS(top=None if G["top"] is None else eid(G["top"]), nodes=nodes)
     nodes = []
     for n in G["nodes"]:
-        nodes.append(_dmrs.Node(n["id"], uncps(n["pred"]), type=n.get("type"),
-                                properties={uncps(f): uncps(v) for f, v in n["props"]},
-                                carg=None if n["carg"] is None else uncps(n["carg"]),
-                                lnk=mk_lnk(n["lnk"])))
+        nodes.append(_no_lnk(_dmrs.Node(n["id"], uncps(n["pred"]), type=n.get("type"),
+                                        properties={uncps(f): uncps(v) for f, v in n["props"]},
+                                        carg=None if n["carg"] is None else uncps(n["carg"]),
+                                        lnk=mk_lnk(n["lnk"])), n))
     links = [_dmrs.Link(s, e, uncps(r), uncps(p)) for s, e, r, p in G["links"]]
-    return _dmrs.DMRS(top=G["top"], index=None, nodes=nodes, links=links)
+    if not nodes and not links and G["top"] is None:
+        return _dmrs.DMRS()                       # every argument defaulted (nodes=None)
+    # `index` is not read by edm; every second structure has one (the constructor converts it)
+    index = nodes[0].id if len(nodes) % 2 else None
+    return _dmrs.DMRS(top=G["top"], index=index, nodes=nodes, links=links)
 
 
 def weights_of(case):
@@ -106,6 +131,295 @@ def run_totals(golds, tests, ig, it):
     except KeyError:
         return {"err": "KeyError"}
     return [[int(x) for x in c] for c in m]
+
+
+# ---------------------------------------------------------------------------------------------
+# the same call with the module logger enabled for INFO: the `if info:` branch of _accumulate is taken and
+# the log records show, pair by pair, whether the pair was skipped or which 5x3 counts `_match` returned
+
+class _Capture(logging.Handler):
+    def __init__(self):
+        super().__init__()
+        self.recs = []
+
+    def emit(self, r):
+        self.recs.append((r.msg, r.args))
+
+
+LOG_CATS = ("Names", "Arguments", "Properties", "Constants", "Tops")
+
+
+@contextlib.contextmanager
+def info_logging():
+    lg = logging.getLogger("delphin.edm")
+    h = _Capture()
+    old_level, old_prop = lg.level, lg.propagate
+    lg.addHandler(h)
+    lg.setLevel(logging.INFO)
+    lg.propagate = False
+    try:
+        yield h
+    finally:
+        lg.setLevel(old_level)
+        lg.propagate = old_prop
+        lg.removeHandler(h)
+
+
+def trace_of(recs, err):
+    """[null | [[g,t,b]x5] per pair] from the log records"""
+    pairs = []
+    cur = None
+    for msg, args in recs:
+        if msg == "pair %d":
+            if cur is not None:
+                pairs.append(cur)
+            cur = {"n": args[0], "skip": False, "rows": []}
+        elif cur is not None and isinstance(msg, str) and msg.endswith("skipping"):
+            cur["skip"] = True
+        elif cur is not None and args and args[0] in LOG_CATS:
+            cur["rows"].append([args[0]] + [int(x) for x in args[1:4]])
+    if cur is not None:
+        pairs.append(cur)
+    out = []
+    for i, c in enumerate(pairs):
+        if c["n"] != i + 1:
+            out.append({"bad_pair_number": c["n"]})
+        elif c["skip"] and not c["rows"]:
+            out.append(None)
+        elif [r[0] for r in c["rows"]] == list(LOG_CATS):
+            out.append([r[1:] for r in c["rows"]])
+        elif not c["rows"] and err is not None and i == len(pairs) - 1:
+            continue                        # the pair whose _match raised: announced, never reported
+        else:
+            out.append({"bad_rows": c["rows"], "skip": c["skip"]})
+    return {"pairs": out, "err": err}
+
+
+def run_info(golds, tests, w, ig, it):
+    """(score, trace) of edm.compute with INFO logging on"""
+    err = None
+    with info_logging() as h:
+        try:
+            s = edm.compute([build(g) for g in golds], [build(t) for t in tests],
+                            name_weight=w[0], argument_weight=w[1], property_weight=w[2],
+                            constant_weight=w[3], top_weight=w[4],
+                            ignore_missing_gold=ig, ignore_missing_test=it)
+            score = [jfrac(x) for x in s]
+        except KeyError:
+            score = {"err": "KeyError"}
+            err = "KeyError"
+        except ZeroDivisionError:
+            score = {"err": "ZeroDivisionError"}
+    return score, trace_of(h.recs, err)
+
+
+# ---------------------------------------------------------------------------------------------
+# the sub-command `delphin edm GOLD TEST` (delphin.cli.edm): collections read from files through a codec or
+# from [incr tsdb()] profiles (MRS converted to EDS), option plumbing -N -A -P -C -T --ignore-missing -p -f
+
+REL = """item:
+  i-id :integer :key
+  i-input :string
+
+parse:
+  parse-id :integer :key
+  i-id :integer :key
+  readings :integer
+
+result:
+  parse-id :integer :key
+  result-id :integer
+  mrs :string
+"""
+
+
+def _n(i, pred, a, b, props=(), carg=None, edges=()):
+    return {"id": i, "pred": cps(pred), "lnk": ["c", a, b], "props": [[cps(f), cps(v)] for f, v in props],
+            "carg": None if carg is None else cps(carg), "edges": [[cps(r), t] for r, t in edges]}
+
+
+# MRS texts and, written out by hand, the EDS that `eds.from_mrs(m, predicate_modifiers=True)` is for them
+# (ids: _1 -> 1, x3 -> 3, e2 -> 2); BAD cannot be converted (the sub-command then yields a missing item)
+MRS_POOL = {
+    "M1": ('[ TOP: h0 INDEX: e2 RELS: < [ _the_q<0:3> LBL: h4 ARG0: x3 [ x NUM: sg ] RSTR: h5 BODY: h6 ] '
+           '[ _dog_n_1<4:7> LBL: h7 ARG0: x3 ] [ _bark_v_1<8:13> LBL: h1 ARG0: e2 [ e TENSE: pres ] ARG1: x3 ] > '
+           'HCONS: < h0 qeq h1 h5 qeq h7 > ]',
+           {"t": "eds", "top": 2, "links": [], "nodes": [
+               _n(1, "_the_q", 0, 3, edges=[("BV", 3)]), _n(3, "_dog_n_1", 4, 7, props=[("NUM", "sg")]),
+               _n(2, "_bark_v_1", 8, 13, props=[("TENSE", "pres")], edges=[("ARG1", 3)])]}),
+    "M2": ('[ TOP: h0 INDEX: e2 RELS: < [ proper_q<0:3> LBL: h4 ARG0: x3 RSTR: h5 BODY: h6 ] '
+           '[ named<0:3> LBL: h7 ARG0: x3 CARG: "Kim" ] [ _sleep_v_1<4:10> LBL: h1 ARG0: e2 ARG1: x3 ] > '
+           'HCONS: < h0 qeq h1 h5 qeq h7 > ]',
+           {"t": "eds", "top": 2, "links": [], "nodes": [
+               _n(1, "proper_q", 0, 3, edges=[("BV", 3)]), _n(3, "named", 0, 3, carg="Kim"),
+               _n(2, "_sleep_v_1", 4, 10, edges=[("ARG1", 3)])]}),
+    "M3": ('[ TOP: h0 INDEX: e2 RELS: < [ _rain_v_1<3:8> LBL: h1 ARG0: e2 ] > HCONS: < h0 qeq h1 > ]',
+           {"t": "eds", "top": 2, "links": [], "nodes": [_n(2, "_rain_v_1", 3, 8)]}),
+    "M4": ('[ TOP: h0 INDEX: e2 RELS: < [ _the_q<0:3> LBL: h4 ARG0: x3 [ x NUM: pl ] RSTR: h5 BODY: h6 ] '
+           '[ _dog_n_1<4:8> LBL: h7 ARG0: x3 ] [ _bark_v_1<9:13> LBL: h1 ARG0: e2 [ e TENSE: pres ] ARG1: x3 ] > '
+           'HCONS: < h0 qeq h1 h5 qeq h7 > ]',
+           {"t": "eds", "top": 2, "links": [], "nodes": [
+               _n(1, "_the_q", 0, 3, edges=[("BV", 3)]), _n(3, "_dog_n_1", 4, 8, props=[("NUM", "pl")]),
+               _n(2, "_bark_v_1", 9, 13, props=[("TENSE", "pres")], edges=[("ARG1", 3)])]}),
+    "BAD": ('[ TOP: h0 INDEX: e2 RELS: < [ _a_v_1<0:1> LBL: h1 ARG0: e2 ARG1: e3 ] '
+            '[ _b_v_1<2:3> LBL: h1 ARG0: e3 ARG1: e2 ] > HCONS: < h0 qeq h1 > ]', None),
+}
+
+CLI_FORMATS = {"edsjson": "eds", "eds": "eds", "dmrsjson": "dmrs", "simpledmrs": "dmrs"}
+IM = ("none", "gold", "test", "both")
+
+
+def text_clean(G):
+    """can the structure be written in the native text formats without the codec normalising or rejecting it?
+    (they fold the case of predicates and property names and have their own token syntax; the JSON formats
+    keep every string as it is)"""
+    import re
+    for n in G["nodes"]:
+        if not re.fullmatch(r"_?[a-z][a-z0-9_]*", uncps(n["pred"])) or uncps(n["pred"]).endswith("_rel"):
+            return False
+        if n["carg"] is not None and not re.fullmatch(r"[A-Za-z0-9]+", uncps(n["carg"])):
+            return False
+        if any(not re.fullmatch(r"[A-Z]+", uncps(f)) or not re.fullmatch(r"[a-z0-9]+", uncps(v))
+               for f, v in n["props"]):
+            return False
+        if any(not re.fullmatch(r"[A-Z][A-Z0-9-]*", uncps(r)) for r, _ in n["edges"]):
+            return False
+    if any(not re.fullmatch(r"[A-Z][A-Z0-9-]*", uncps(l[2])) for l in G["links"]):
+        return False
+    return True
+
+
+def cli_graphs(case, side):
+    """the graphs the sub-command should see on that side, according to the case"""
+    return case[side]
+
+
+def write_cli_sources(case, tmp):
+    """GOLD and TEST as files / profile directories under tmp; returns (gold_path, test_path)"""
+    spec = case["cli"]
+    out = []
+    for side in ("golds", "tests"):
+        path = os.path.join(tmp, side)
+        if os.path.isdir(path):
+            shutil.rmtree(path)
+        elif os.path.exists(path):
+            os.unlink(path)
+        src = spec["src"]
+        if src == "file":
+            from delphin import util as _u
+            codec = _u.import_codec(spec["fmt"])
+            objs = [build(_typed(g)) for g in case[side]]
+            codec.dump(objs, path)
+        elif src == "mrsfile":
+            with open(path, "w", encoding="utf-8") as f:
+                f.write("".join(MRS_POOL[k][0] + "\n" for k in spec[side]))
+        elif src == "profile":
+            os.makedirs(path)
+            with open(os.path.join(path, "relations"), "w") as f:
+                f.write(REL)
+            it, pa, rs = [], [], []
+            for iid, results in enumerate(spec[side], 1):
+                it.append("%d@sentence %d" % (iid, iid))
+                pa.append("%d@%d@%d" % (iid * 10, iid, len(results)))
+                for rid, k in enumerate(results):
+                    rs.append("%d@%d@%s" % (iid * 10, rid, MRS_POOL[k][0]))
+            for nm, rows in (("item", it), ("parse", pa), ("result", rs)):
+                with open(os.path.join(path, nm), "w", encoding="utf-8") as f:
+                    f.write("".join(r + "\n" for r in rows))
+        else:
+            raise ValueError(src)
+        out.append(Path(path))
+    return out
+
+
+def _typed(G):
+    """text formats can only write properties of a node that has a type"""
+    H = copy.deepcopy(G)
+    for n in H["nodes"]:
+        if n["props"] and not n.get("type"):
+            n["type"] = "x"
+    return H
+
+
+def parse_cli_output(text, exact):
+    lines = text.splitlines()
+    if len(lines) != 3 or [l.split(":")[0].strip() for l in lines] != ["Precision", "Recall", "F-score"]:
+        return {"bad_output": text[:200]}
+    vals = [l.split("\t", 1)[1] for l in lines]
+    try:
+        if exact:
+            return [jfrac(Fraction(v)) for v in vals]
+        return [float(v) for v in vals]
+    except (ValueError, ZeroDivisionError):
+        return {"bad_output": text[:200]}
+
+
+def run_cli_exact(case, tmp):
+    """delphin.cli.edm.call_compute on an argparse namespace carrying Fraction weights: exact scores"""
+    from delphin.cli import edm as cli_edm
+    spec = case["cli"]
+    gp, tp = write_cli_sources(case, tmp)
+    w = weights_of(case)
+    ns = argparse.Namespace(GOLD=gp, TEST=tp, format=spec.get("fmt", "eds"), p=spec.get("p", 0),
+                            N=w[0], A=w[1], P=w[2], C=w[3], T=w[4], ignore_missing=spec["im"])
+    buf = io.StringIO()
+    try:
+        with contextlib.redirect_stdout(buf), warnings.catch_warnings():
+            warnings.simplefilter("ignore")
+            cli_edm.call_compute(ns)
+    except KeyError:
+        return {"err": "KeyError"}
+    except ZeroDivisionError:
+        return {"err": "ZeroDivisionError"}
+    return parse_cli_output(buf.getvalue(), True)
+
+
+def run_cli_main(case, tmp):
+    """the whole command line: `delphin edm GOLD TEST -f FMT -p N -N .. -T .. --ignore-missing X [-vv]`
+    through delphin.__main__.main() (argparse, float weights, verbosity -> logger level)"""
+    import delphin.__main__ as dm
+    spec = case["cli"]
+    gp, tp = write_cli_sources(case, tmp)
+    w = weights_of(case)
+    argv = ["delphin", "edm", str(gp), str(tp)]
+    if spec.get("fmt", "eds") != "eds" or case["alt"] % 2:
+        argv += ["-f", spec.get("fmt", "eds")] if case["alt"] % 4 < 2 else ["--format", spec.get("fmt", "eds")]
+    if spec.get("p", 0) != 0 or case["alt"] % 3 == 0:
+        argv += ["-p", str(spec.get("p", 0))]
+    for flag, x in zip("NAPCT", w):
+        if x != 1 or case["alt"] % 5 == 0:
+            argv += ["-" + flag, repr(float(x))]
+    if spec["im"] != "none" or case["alt"] % 7 == 0:
+        argv += ["--ignore-missing", spec["im"]]
+    argv += ["-v"] * spec.get("v", 0)
+    buf = io.StringIO()
+    dl = logging.getLogger("delphin")
+    old_level = dl.level
+    old_argv = sys.argv
+    sys.argv = argv
+    cl = logging.getLogger("delphin.cli.edm")        # its DEBUG lines are not part of the observation
+    nh = logging.NullHandler()
+    cl.addHandler(nh)
+    cl_prop, cl.propagate = cl.propagate, False
+    try:
+        with info_logging() as h:
+            logging.getLogger("delphin.edm").setLevel(logging.NOTSET)     # inherit what main() sets
+            with contextlib.redirect_stdout(buf), warnings.catch_warnings():
+                warnings.simplefilter("ignore")
+                dm.main()
+            logged = len(h.recs)
+    except KeyError:
+        return {"err": "KeyError"}, 0, argv
+    except ZeroDivisionError:
+        return {"err": "ZeroDivisionError"}, 0, argv
+    except SystemExit as e:
+        return {"err": "SystemExit", "code": str(e.code)[:100]}, 0, argv
+    finally:
+        sys.argv = old_argv
+        dl.setLevel(old_level)
+        cl.removeHandler(nh)
+        cl.propagate = cl_prop
+    return parse_cli_output(buf.getvalue(), False), logged, argv
 
 
 # ---------------------------------------------------------------------------------------------
@@ -256,6 +570,13 @@ ROLES = ["ARG1", "ARG2", "BV", "RSTR", "MOD", "L-INDEX", "ARG1"]
 POSTS = ["EQ", "NEQ", "H", "HEQ"]
 PROPS = [("NUM", ["sg", "pl"]), ("PERS", ["1", "3"]), ("TENSE", ["past", "pres"]), ("carg", ["Kim"])]
 CARGS = ["Kim", "Lee", "", "Kim"]
+# spellings that a normalising comparison would identify (case, `_rel` suffix, quotes, NFC/NFD, full width,
+# surrounding blanks): the triples are compared as the strings they are
+V_PREDS = ["_a_n_1", "_A_n_1", "_a_n_1_rel", '"_a_n_1"', "_a_N_1", "_caf\u00e9_n_1", "_cafe\u0301_n_1", "_a_n_1 ",
+           "\uff3fa_n_1", "_stra\u00dfe_n_1", "_strasse_n_1"]
+V_ROLES = ["ARG1", "arg1", "Arg1", "ARG1 ", "ARG\uff11", "MOD", "mod", "Mod"]
+V_PROPS = [("NUM", ["sg", "SG", "Sg", "sg "]), ("num", ["sg", "SG"]), ("Num", ["sg"]), ("CARG", ["Kim"])]
+V_CARGS = ["Kim", "kim", "KIM", "Kim ", "\u00e9", "e\u0301", "\u212a" "im", "0", " "]
 SPANS = [["c", 0, 3], ["c", 0, 3], ["c", 4, 7], ["c", 4, 7], ["c", 0, 7], ["c", 8, 9], ["c", -1, -1],
          ["c", 3, 0]]
 WPOOL = ["0", "0", "1", "1", "1/2", "2", "3/7", "1/3", "5", "1/1000", "1000000", "7/2"]
@@ -345,7 +666,15 @@ def gen_node(rng, nid, odd):
     r = rng.random()
     if r < 0.3:
         carg = cps(rng.choice(CARGS))
-    return {"id": nid, "pred": cps(rng.choice(PREDS)), "lnk": gen_lnk(rng, odd), "props": props, "carg": carg,
+    pred = rng.choice(PREDS)
+    if rng.random() < 0.06:
+        pred = rng.choice(V_PREDS)
+        if rng.random() < 0.5:
+            f, vs = rng.choice(V_PROPS)
+            props = [q for q in props if uncps(q[0]) != f] + [[cps(f), cps(rng.choice(vs))]]
+        if rng.random() < 0.5:
+            carg = cps(rng.choice(V_CARGS))
+    return {"id": nid, "pred": cps(pred), "lnk": gen_lnk(rng, odd), "props": props, "carg": carg,
             "edges": []}
 
 
@@ -424,8 +753,19 @@ def mutate_graph(rng, G):
     H = copy.deepcopy(G)
     for _ in range(rng.choice([0, 1, 1, 2, 3])):
         nodes = H["nodes"]
-        op = rng.randrange(14)
-        if op >= 12 and nodes:
+        op = rng.randrange(15)
+        if op == 14:
+            if nodes:
+                n = rng.choice(nodes)
+                which = rng.randrange(3)
+                if which == 0:
+                    n["pred"] = cps(rng.choice(V_PREDS))
+                elif which == 1:
+                    n["carg"] = cps(rng.choice(V_CARGS))
+                else:
+                    f, vs = rng.choice(V_PROPS)
+                    n["props"] = [q for q in n["props"] if uncps(q[0]) != f] + [[cps(f), cps(rng.choice(vs))]]
+        elif op >= 12 and nodes:
             n = rng.choice(nodes)
             if n["lnk"] is None or n["lnk"][0] != "c" or partner_span(rng, n["lnk"]) is None:
                 n["lnk"] = ["c"] + list(rng.choice(rng.choice(FAMILIES)))
@@ -467,7 +807,7 @@ def mutate_graph(rng, G):
                     del n["props"][i]
                 else:
                     f = uncps(n["props"][i][0])
-                    n["props"][i][1] = cps(rng.choice(dict(PROPS)[f]))
+                    n["props"][i][1] = cps(rng.choice(dict(PROPS + V_PROPS[1:])[f]))
             else:
                 have = {uncps(f) for f, _ in n["props"]}
                 free = [(f, vs) for f, vs in PROPS if f not in have]
@@ -614,6 +954,160 @@ def corner_cases(rng):
                 yield mk_case("corner", [t], [e], w, False, False, rng)
 
 
+def variant_cases(rng):
+    """deterministic block: gold and test differ ONLY in the spelling of one string (predicate, role, property
+    name, property value, constant) taken from the V_* pools — every ordered pair of spellings, EDS and DMRS"""
+    one = [wstr("1")] * 5
+    k = 0
+
+    def mk(t, pred, role, pname, pval, carg):
+        a = {"id": 1, "pred": cps(pred), "lnk": ["c", 0, 3], "props": [[cps(pname), cps(pval)]],
+             "carg": cps(carg), "edges": []}
+        b = {"id": 2, "pred": cps("_b_v_1"), "lnk": ["c", 4, 7], "props": [], "carg": None, "edges": []}
+        g = {"t": t, "top": 1, "nodes": [a, b], "links": []}
+        if t == "eds":
+            a["edges"] = [[cps(role), 2]]
+        else:
+            g["links"] = [[1, 2, cps(role), cps("NEQ")]]
+        return g
+    base = ("_a_n_1", "ARG1", "NUM", "sg", "Kim")
+    dims = [V_PREDS, V_ROLES, [f for f, _ in V_PROPS], V_PROPS[0][1], V_CARGS]
+    for d, pool in enumerate(dims):
+        for x in pool:
+            for y in pool:
+                if x == y:
+                    continue
+                ga, gb = list(base), list(base)
+                ga[d], gb[d] = x, y
+                t1 = ("eds", "dmrs")[k % 2]
+                t2 = ("eds", "dmrs")[(k // 2) % 2]
+                k += 1
+                yield mk_case("variant", [mk(t1, *ga)], [mk(t2, *gb)], one, False, False, rng)
+
+
+def bulk_cases(rng, tier):
+    """deterministic block of sizes: one triple repeated 255/256/257/300 times on one or both sides (every
+    category at once), and paired lists longer than 1024 with missing members around position 1024"""
+    one = [wstr("1")] * 5
+
+    def rep(t, k):
+        nodes = [{"id": i + 1, "pred": cps("_a_n_1"), "lnk": ["c", 0, 3], "props": [[cps("NUM"), cps("sg")]],
+                  "carg": cps("Kim"), "edges": []} for i in range(k)]
+        g = {"t": t, "top": 1 if k else None, "nodes": nodes, "links": []}
+        for n in nodes:
+            if t == "eds":
+                n["edges"] = [[cps("ARG1"), n["id"]]]
+            else:
+                g["links"].append([n["id"], n["id"], cps("ARG1"), cps("NEQ")])
+        return g
+    for i, (a, b) in enumerate([(255, 256), (256, 256), (257, 256), (300, 2), (1, 257)]):
+        t1 = ("eds", "dmrs")[i % 2]
+        t2 = ("dmrs", "eds")[(i // 2) % 2]
+        yield mk_case("bulk", [rep(t1, a)], [rep(t2, b)], one, False, False, rng)
+    tiny = [g for g in tiny_graphs() if g is not None]
+    for n_pairs, holes in ([(1030, (0, 1023, 1024, 1025))] + ([(2055, (2047, 2048, 2049))] if tier == "thorough" else [])):
+        golds = [copy.deepcopy(tiny[i % len(tiny)]) for i in range(n_pairs)]
+        tests = [copy.deepcopy(tiny[(i * 7 + 3) % len(tiny)]) for i in range(n_pairs)]
+        for j, h in enumerate(holes):
+            if j % 2:
+                golds[h] = None
+            else:
+                tests[h] = None
+        tests = tests[:n_pairs - 3]
+        for ig, it in (((False, False), (True, False), (False, True)) if tier == "thorough" else ((True, False),)):
+            yield mk_case("bulk", copy.deepcopy(golds), copy.deepcopy(tests),
+                          [wstr("1"), wstr("1/2"), wstr("2"), wstr("1"), wstr("3")], ig, it, rng)
+
+
+def cli_graph(rng, fmt, like=None):
+    """a structure the codec `fmt` writes and reads back unchanged"""
+    t = CLI_FORMATS[fmt]
+    for _ in range(60):
+        if like is not None:
+            G = mutate_graph(rng, like)
+            if G["t"] != t:
+                continue
+        else:
+            G = gen_graph(rng, t=t, odd=0.04)
+        for n in G["nodes"]:
+            if n["lnk"] is None:
+                n["lnk"] = ["c", 4, 7]
+        if fmt in ("eds", "simpledmrs"):
+            for n in G["nodes"]:
+                n["props"] = [p_ for p_ in n["props"] if uncps(p_[0]) != "carg"]
+                if n["carg"] == []:
+                    n["carg"] = None
+                if n["lnk"] is None or n["lnk"][0] != "c" or n["lnk"][1] < 0 or n["lnk"][2] < 0:
+                    n["lnk"] = ["c", 0, 3]
+                n["pred"] = cps(uncps(n["pred"]).lower())
+            ids = {n["id"] for n in G["nodes"]}
+            if G["top"] is not None and G["top"] not in ids:
+                G["top"] = None
+            for n in G["nodes"]:
+                n["edges"] = [e for e in n["edges"] if e[1] in ids]
+            G["links"] = [l for l in G["links"] if l[1] in ids and l[0] != 0]
+            if fmt == "eds" and G["top"] is None and G["nodes"]:
+                G["top"] = G["nodes"][0]["id"]
+            if not text_clean(G):
+                continue
+        if wellformed(G) and all(l[0] != 0 for l in G["links"]):
+            return G
+    return {"t": t, "top": 1, "nodes": [_n(1, "_a_n_1", 0, 3)], "links": []}
+
+
+def cli_file_case(rng, fmt, im, shape, w=None, v=0):
+    n = rng.choice([1, 2, 2, 3, 4])
+    golds = [cli_graph(rng, fmt) for _ in range(n)]
+    tests = [cli_graph(rng, fmt, like=g) for g in golds]
+    if shape == "gold_longer":
+        tests = tests[:rng.randrange(len(tests))]
+    elif shape == "test_longer":
+        golds = golds[:rng.randrange(len(golds))]
+    ig, it = im in ("gold", "both"), im in ("test", "both")
+    c = mk_case("cli", golds, tests, w or gen_weights(rng), ig, it, rng)
+    c["cli"] = {"src": "file", "fmt": fmt, "im": im, "p": 0, "v": v}
+    return c
+
+
+def cli_mrs_case(rng, src, gold_spec, test_spec, im, p, w, v=0):
+    def expected(spec):
+        out = []
+        for x in spec:
+            if src == "profile":
+                x = x[p] if p < len(x) else None
+            out.append(None if x is None else copy.deepcopy(MRS_POOL[x][1]))
+        return out
+    ig, it = im in ("gold", "both"), im in ("test", "both")
+    c = mk_case("cli", expected(gold_spec), expected(test_spec), w, ig, it, rng)
+    c["cli"] = {"src": src, "fmt": "simplemrs" if src == "mrsfile" else "eds", "im": im, "p": p, "v": v,
+                "golds": gold_spec, "tests": test_spec}
+    return c
+
+
+def cli_cases(rng, tier):
+    """the sub-command: every codec family x --ignore-missing x list shape (deterministic grid over freshly
+    generated structures), MRS files (converted to EDS; an unconvertible MRS is a missing item) and profiles
+    (items without a result or without result number -p are missing items)"""
+    one = [wstr("1")] * 5
+    k = 0
+    for fmt in CLI_FORMATS:
+        for im in IM:
+            for shape in ("equal", "gold_longer", "test_longer"):
+                k += 1
+                yield cli_file_case(rng, fmt, im, shape, w=one if k % 3 == 0 else None, v=(0, 2, 0, 1, 3)[k % 5])
+    wmix = [wstr("1/2"), wstr("2"), wstr("1"), wstr("3"), wstr("1/4")]
+    mg, mt = ["M1", "M2", "BAD", "M3", "M1"], ["M4", "M2", "M3", "BAD"]
+    pg = [["M1", "M2"], ["M2"], [], ["BAD"], ["M3", "M1"], ["M2", "M2"]]
+    pt = [["M4", "M3"], [], ["M3"], ["M2"], ["M3"]]
+    for im in IM:
+        k += 1
+        yield cli_mrs_case(rng, "mrsfile", mg, mt, im, 0, one if k % 2 else wmix, v=2 * (k % 2))
+        yield cli_mrs_case(rng, "mrsfile", mt, mg, im, 0, wmix)
+        for p in (0, 1, 2):
+            yield cli_mrs_case(rng, "profile", pg, pt, im, p, wmix if p else one, v=(0, 2, 0)[p])
+            yield cli_mrs_case(rng, "profile", pt, pg, im, p, wmix)
+
+
 def tiny_graphs():
     """all structures with at most 2 nodes over 2 spans × 2 predicates, optional ARG1 edge 1→2, top ∈ {None,1}"""
     sp = [["c", 0, 3], ["c", 4, 7]]
@@ -640,11 +1134,41 @@ def tiny_graphs():
     return out
 
 
+def editable(G, H):
+    """can an object built from G be turned into H by assigning attributes? (same class, same node ids in
+    the same order, no legacy top link)"""
+    return (G is not None and H is not None and G["t"] == H["t"] and G["nodes"]
+            and [n["id"] for n in G["nodes"]] == [n["id"] for n in H["nodes"]]
+            and all(l[0] != 0 for l in H["links"]) and all(l[0] != 0 for l in G["links"]))
+
+
+def edit_in_place(obj, H):
+    for node, hn in zip(obj.nodes, H["nodes"]):
+        node.predicate = uncps(hn["pred"])
+        lk = mk_lnk(hn["lnk"])
+        node.lnk = Lnk.default() if lk is None else lk
+        node.carg = None if hn["carg"] is None else uncps(hn["carg"])
+        node.properties.clear()
+        node.properties.update({uncps(f): uncps(v) for f, v in hn["props"]})
+        if H["t"] == "eds":
+            node.edges.clear()
+            node.edges.update({uncps(r): eid(t) for r, t in hn["edges"]})
+    if H["t"] == "eds":
+        obj.top = None if H["top"] is None else eid(H["top"])
+    else:
+        obj.top = H["top"]
+        obj.links[:] = [_dmrs.Link(s_, e, uncps(r), uncps(p_)) for s_, e, r, p_ in H["links"]]
+
+
 class C18(Check):
     pid = "C18"
-    quick_cases = 4000
+    props_modules = ["Verif.C18.Props", "Verif.C18.PropsApi", "Verif.C18.Translated"]
+    quick_cases = 2600
     thorough_cases = 40000
-    rule = ("one case = one call of edm.compute on paired lists of 0-6 EDS/DMRS structures (0-6 nodes each; spans, "
+    rule = ("(round 6: plus the same call with INFO logging and its per-pair log, generators/positional/keyword call "
+            "paths, structures edited in place, the `delphin edm` sub-command on files in 4 codecs, MRS files and "
+            "profiles, spelling variants, 255-300 repeated triples, lists longer than 1024) "
+            "one case = one call of edm.compute on paired lists of 0-6 EDS/DMRS structures (0-6 nodes each; spans, "
             "predicates, roles, properties and constants from small pools so that spans, predicates and whole triples "
             "repeat; test structures mostly derived from the gold ones by local edits, conversion EDS<->DMRS, node "
             "duplication; None entries, unequal list lengths, both ignore flags; Fraction weights incl. zeros). "
@@ -659,7 +1183,23 @@ class C18(Check):
         "property's input space: they go through the model correspondence only, not through the oracle",
     ]
     trusted_base = ["hand-written model lean/Verif/C18/Model.lean, tied to delphin.edm by the correspondence run "
-                    "(exact rationals via fractions.Fraction; _accumulate totals and compute scores)"]
+                    "(exact rationals via fractions.Fraction; _accumulate totals and compute scores)",
+                    "source translator py2lean + PyRt (TRANSLATOR.md)"]
+
+    def translation_specs(self):
+        from .common import py2lean as P
+        from delphin import edm
+        cnt = P.Struct("Verif.C18.CountZ", {"gold": P.INT, "test": P.INT, "both": P.INT}, edm._Count)
+        mt = P.Struct("Verif.C18.MatchZ", {"name": cnt, "argument": cnt, "property": cnt, "constant": cnt, "top": cnt},
+                      edm._Match)
+        return [P.Spec(edm._Count.add, "count_add", [("self", cnt), ("other", cnt)], cnt),
+                P.Spec(edm._Match.add, "match_add", [("self", mt), ("other", mt)], mt)]
+
+    def translations(self):
+        """Source translation (TRANSLATOR.md): edm._Count.add / _Match.add → lean/Verif/Generated/TransC18.lean, proved
+        equal to the model's Count.add / Match.add in lean/Verif/C18/Translated.lean."""
+        from .common import py2lean as P
+        return P.translate_module(self.translation_specs(), "Verif.Trans.C18", imports=["Verif.C18.TranslatedTypes"])
 
     LOG_NAMES = ("logger", "logging", "info", "debug", "INFO", "isEnabledFor")
 
@@ -724,6 +1264,38 @@ class C18(Check):
                                       for k in ("UNSPECIFIED", "CHARSPAN", "CHARTSPAN", "TOKENS", "EDGE")]))
         return out
 
+    def cli_pins(self):
+        """what the model of the sub-command's option plumbing (Api.lean: cliFlags, CliArgs) hand-codes:
+        the keyword each option is passed as (AST of call_compute), the membership tuples of the two flags,
+        and the parser's option strings, types, defaults and choices"""
+        import ast
+        import inspect
+        import textwrap
+        from delphin.cli import edm as cli_edm
+        out = []
+        tree = ast.parse(textwrap.dedent(inspect.getsource(cli_edm.call_compute)))
+        calls = [c for c in ast.walk(tree) if isinstance(c, ast.Call) and ast.unparse(c.func) == "edm.compute"]
+        out.append(("cli.call_compute.compute_calls", [str(len(calls))]))
+        for c in calls[:1]:
+            out.append(("cli.call_compute.positional", [ast.unparse(a) for a in c.args]))
+            out.append(("cli.call_compute.keywords", ["%s=%s" % (k.arg, ast.unparse(k.value)) for k in c.keywords]))
+        for a in cli_edm.parser._actions:
+            out.append(("cli.parser." + a.dest, ["/".join(a.option_strings), getattr(a.type, "__name__", repr(a.type)),
+                                                 repr(a.default), repr(a.choices)]))
+        out.append(("cli.parser.func", [cli_edm.parser.get_default("func").__name__]))
+        for fn in (cli_edm._iter_representations, cli_edm._eds_from_mrs):
+            t = ast.parse(textwrap.dedent(inspect.getsource(fn))).body[0]
+            body = [st for st in t.body if not (isinstance(st, ast.Expr) and isinstance(st.value, ast.Constant))]
+            text = "\n".join(ast.unparse(st) for st in body)
+            out.append(("cli.%s.args" % fn.__name__, [ast.unparse(t.args)]))
+            out.append(("cli.%s.body" % fn.__name__,
+                        [l.strip() for l in text.splitlines() if "logger." not in l and l.strip()]))
+        import delphin.__main__ as dm
+        src = inspect.getsource(dm.main)
+        out.append(("main.setLevel", [l.strip() for l in src.splitlines()
+                                      if "verbosity" in l or "setLevel" in l or "logging.ERROR" in l]))
+        return out
+
     def tables(self):
         """the constants of the code the model depends on, read from the live module"""
         from delphin.dmrs import _dmrs as d
@@ -737,6 +1309,12 @@ class C18(Check):
         pins = self.pins()
         for i, (k, vs) in enumerate(pins):
             lines.append("  (%s, [%s])%s" % (lit(k), ", ".join(lit(v) for v in vs), "," if i + 1 < len(pins) else ""))
+        lines.append("]")
+        lines.append("/-- the option plumbing of `delphin edm` that Api.lean mirrors -/")
+        lines.append("def c18CliPins : List (String × List String) := [")
+        cp = self.cli_pins()
+        for i, (k, vs) in enumerate(cp):
+            lines.append("  (%s, [%s])%s" % (lit(k), ", ".join(lit(v) for v in vs), "," if i + 1 < len(cp) else ""))
         lines.append("]")
         return lines
 
@@ -760,15 +1338,23 @@ class C18(Check):
                 yield mk_case("shape", copy.deepcopy(golds), copy.deepcopy(tests), one, ig, it, rng)
         yield from family_cases(rng)
         yield from corner_cases(rng)
+        yield from variant_cases(rng)
+        yield from bulk_cases(rng, tier)
+        yield from cli_cases(rng, tier)
         yield from self.random_cases(rng, n)
 
     def random_cases(self, rng, n, kinds=None):
         for _ in range(n):
             r = rng.random()
             kind = rng.choice(kinds) if kinds else (
-                "derived" if r < 0.45 else "indep" if r < 0.58 else "identical" if r < 0.68 else
-                "missing" if r < 0.83 else "malformed" if r < 0.93 else "negw")
-            yield self.gen_case(rng, kind)
+                "derived" if r < 0.43 else "indep" if r < 0.55 else "identical" if r < 0.64 else
+                "missing" if r < 0.78 else "malformed" if r < 0.87 else "negw" if r < 0.93 else "cli")
+            if kind == "cli":
+                yield cli_file_case(rng, rng.choice(sorted(CLI_FORMATS)), rng.choice(IM),
+                                    rng.choice(["equal", "equal", "gold_longer", "test_longer"]),
+                                    v=rng.choice([0, 0, 1, 2, 3]))
+            else:
+                yield self.gen_case(rng, kind)
 
     def gen_case(self, rng, kind):
         npairs = rng.choice([0, 1, 1, 1, 2, 2, 3, 4, 6])
@@ -833,14 +1419,26 @@ class C18(Check):
         yield from self.random_cases(rng, n, ["derived", "derived", "missing", "identical", "indep"])
 
     # ---- implementation
+    def setup(self):
+        self.tmp = tempfile.mkdtemp(prefix="c18-", dir="/var/tmp")
+
+    def teardown(self):
+        shutil.rmtree(getattr(self, "tmp", ""), ignore_errors=True)
+
     def impl(self, case):
         w = weights_of(case)
-        return {"totals": run_totals(case["golds"], case["tests"], case["ig"], case["it"]),
-                "score": run_compute(case["golds"], case["tests"], w, case["ig"], case["it"])}
+        out = {"totals": run_totals(case["golds"], case["tests"], case["ig"], case["it"]),
+               "score": run_compute(case["golds"], case["tests"], w, case["ig"], case["it"])}
+        out["score_info"], out["trace"] = run_info(case["golds"], case["tests"], w, case["ig"], case["it"])
+        out["cli"] = run_cli_exact(case, self.tmp) if case.get("cli") else None
+        return out
 
     def model_request(self, case):
-        return {"op": "compute", "golds": case["golds"], "tests": case["tests"], "w": case["w"],
-                "ig": case["ig"], "it": case["it"]}
+        req = {"op": "compute", "golds": case["golds"], "tests": case["tests"], "w": case["w"],
+               "ig": case["ig"], "it": case["it"]}
+        if case.get("cli"):
+            req["im"] = case["cli"]["im"]
+        return req
 
     def model_compare(self, case, expected, answer):
         if isinstance(expected, dict) and expected.get("totals") is None and isinstance(answer, dict):
@@ -934,6 +1532,83 @@ class C18(Check):
                 if abs(x - float(y)) > 1e-9 * max(1.0, abs(float(y))):
                     fail("float scores differ from the exact ratios by more than 1e-9", {"float": fs, "exact": score})
                     break
+        # (7) the logger level does not matter, and what is logged pair by pair is what the definition says
+        if res.get("score_info") != score:
+            fail("enabling INFO logging changes the scores", {"quiet": score, "info": res.get("score_info")})
+        want_pairs = []
+        n = max(len(golds), len(tests))
+        for i in range(n):
+            g = golds[i] if i < len(golds) else None
+            t = tests[i] if i < len(tests) else None
+            if (g is None and t is None) or (g is None and ig) or (t is None and it):
+                want_pairs.append(None)
+            else:
+                tg, tt = o_triples(g), o_triples(t)
+                want_pairs.append([[len(tg[c]), len(tt[c]), o_inter(tg[c], tt[c])] for c in range(5)])
+        if res.get("trace") != {"pairs": want_pairs, "err": None}:
+            got = (res.get("trace") or {}).get("pairs")
+            bad = next((i for i in range(min(len(got or []), len(want_pairs))) if got[i] != want_pairs[i]), None)
+            fail("the per-pair counts (INFO log) differ from the multiset intersections of that pair",
+                 {"first_bad_pair": bad, "want": None if bad is None else want_pairs[bad],
+                  "got": None if bad is None else got[bad], "n_want": len(want_pairs), "n_got": len(got or [])})
+        # (8) other ways of making the same call
+        kw = dict(name_weight=w[0], argument_weight=w[1], property_weight=w[2], constant_weight=w[3],
+                  top_weight=w[4], ignore_missing_gold=ig, ignore_missing_test=it)
+        bg, bt = [build(g) for g in golds], [build(t) for t in tests]
+        path = case.get("alt", 0) % 4
+        exact = True
+        try:
+            if path == 0:
+                v = edm.compute((x for x in bg), (y for y in bt), **kw)
+            elif path == 1:
+                v = edm.compute(tuple(bg), iter(bt), w[0], w[1], w[2], w[3], w[4], ig, it)
+            elif path == 2:
+                items = list(kw.items()) + [("golds", iter(bg)), ("tests", tuple(bt))]
+                arng.shuffle(items)
+                v = edm.compute(**dict(items))
+            else:
+                kw2 = {k: x for k, x in kw.items() if not (x == 1 and k.endswith("weight")) and x is not False}
+                exact = len([k for k in kw2 if k.endswith("weight")]) == 5
+                v = edm.compute(bg, bt, **kw2)
+            v = [jfrac(x) for x in v] if exact else [float(x) for x in v]
+        except (KeyError, ZeroDivisionError, TypeError) as e:
+            v = {"err": type(e).__name__}
+        if exact:
+            if v != score:
+                fail("the same call made another way (generators / positional / keywords / defaults) differs",
+                     {"path": path, "got": v, "list_call": score})
+        elif isinstance(v, dict) or any(abs(x - float(y)) > 1e-9 * max(1.0, abs(float(y))) for x, y in zip(v, (p, r, f))):
+            fail("the same call made another way (generators / positional / keywords / defaults) differs",
+                 {"path": path, "got": v, "list_call": score})
+        # (9) structures edited in place between two calls: the second call sees the edited structures
+        ok_i = [i for i in range(min(len(golds), len(tests))) if editable(golds[i], tests[i])]
+        if ok_i:
+            objs = [build(g) for g in golds]
+            try:
+                edm.compute(objs, [build(t) for t in tests], **kw)
+                for i in ok_i:
+                    edit_in_place(objs[i], tests[i])
+                v = [jfrac(x) for x in edm.compute(objs, [build(t) for t in tests], **kw)]
+            except (KeyError, ZeroDivisionError) as e:
+                v = {"err": type(e).__name__}
+            g2 = [tests[i] if i in ok_i else golds[i] for i in range(len(golds))]
+            _, _, _, want2 = o_score(o_totals(g2, tests, ig, it), w)
+            if v != [jfrac(x) for x in want2]:
+                fail("after editing gold structures in place a second call does not see the edits",
+                     {"edited_pairs": ok_i, "got": v, "want": [jfrac(x) for x in want2]})
+        # (10) the sub-command
+        if case.get("cli"):
+            if res.get("cli") != want_j:
+                fail("`delphin edm` (call_compute, exact weights) differs from the weighted ratios",
+                     {"cli": case["cli"], "got": res.get("cli"), "want": want_j})
+            fl, logged, argv = run_cli_main(case, self.tmp)
+            if isinstance(fl, dict) or any(abs(x - float(y)) > 1e-9 * max(1.0, abs(float(y)))
+                                            for x, y in zip(fl, want)):
+                fail("`delphin edm` command line (float weights) differs from the weighted ratios",
+                     {"argv": argv[4:], "got": fl, "want": [float(x) for x in want]})
+            if (logged > 0) != (case["cli"].get("v", 0) >= 2):
+                fail("`delphin edm` -v/-vv does not set the logging level it says",
+                     {"v": case["cli"].get("v", 0), "records": logged})
         return fails
 
     def classify(self, case, failure):
@@ -952,7 +1627,34 @@ class C18(Check):
         def inc(k, by=1):
             counters[k] = counters.get(k, 0) + by
         inc("kind:" + case["kind"])
-        inc("pairs:%d" % max(len(case["golds"]), len(case["tests"])))
+        npairs = max(len(case["golds"]), len(case["tests"]))
+        inc("pairs:%s" % (npairs if npairs <= 6 else "7-1024" if npairs <= 1024 else ">1024"))
+        inc("callpath:%s" % ("generators", "positional+iter", "keywords_shuffled", "defaults_omitted")[case.get("alt", 0) % 4])
+        cli = case.get("cli")
+        if cli:
+            inc("cli:src=%s" % cli["src"])
+            inc("cli:fmt=%s" % cli["fmt"])
+            inc("cli:ignore-missing=%s" % cli["im"])
+            inc("cli:-p=%d" % cli.get("p", 0))
+            inc("cli:verbosity=%d" % cli.get("v", 0))
+            if len(case["golds"]) != len(case["tests"]):
+                inc("cli:collections_of_unequal_length")
+            if cli["src"] != "file":
+                if any(g is None for g in case["golds"] + case["tests"]):
+                    inc("cli:missing_item_from_source(no result / no result number p / unconvertible MRS)")
+        if sum(1 for i in range(min(len(case["golds"]), len(case["tests"])))
+               if editable(case["golds"][i], case["tests"][i])) and self.in_space(case):
+            inc("inplace_edit_applied")
+        mult = 0
+        for x in case["golds"] + case["tests"]:
+            if x is not None and len(x["nodes"]) >= 255:
+                mult = max(mult, len(x["nodes"]))
+        if mult:
+            inc("structure_with_>=255_nodes")
+        vs = set(V_PREDS[1:]) | set(V_CARGS[1:])
+        if any(uncps(n["pred"]) in vs or (n["carg"] and uncps(n["carg"]) in vs)
+               for x in case["golds"] + case["tests"] if x is not None for n in x["nodes"]):
+            inc("has_spelling_variant(case/NFC/NFD/suffix)")
         if len(case["golds"]) != len(case["tests"]):
             inc("unequal_list_lengths")
         inc("flags:ig=%d,it=%d" % (case["ig"], case["it"]))
@@ -995,6 +1697,12 @@ class C18(Check):
                           else "positive"))
         if res is None:
             return
+        tr = res.get("trace")
+        if tr:
+            for x in tr["pairs"]:
+                inc("trace:pair_skipped" if x is None else "trace:pair_counted")
+            if tr["err"]:
+                inc("trace:raised_after_%s_pairs" % min(len(tr["pairs"]), 3))
         sc = res["score"]
         if isinstance(sc, dict):
             inc("result:" + sc["err"])
@@ -1041,6 +1749,24 @@ class C18(Check):
 
     def _smaller(self, case):
         n = max(len(case["golds"]), len(case["tests"]))
+        if n > 8:                                        # long lists: halves first
+            for lo, hi in ((0, n // 2), (n // 2, n)):
+                c = copy.deepcopy(case)
+                c["golds"] = c["golds"][lo:hi]
+                c["tests"] = c["tests"][lo:hi]
+                yield c
+        for side in ("golds", "tests"):                  # big structures: halves first
+            for gi, g in enumerate(case[side]):
+                if g is not None and len(g["nodes"]) > 8:
+                    k = len(g["nodes"])
+                    for lo, hi in ((0, k // 2), (k // 2, k), (0, k - 1)):
+                        c = copy.deepcopy(case)
+                        c[side][gi]["nodes"] = c[side][gi]["nodes"][lo:hi]
+                        ids = {x["id"] for x in c[side][gi]["nodes"]}
+                        c[side][gi]["links"] = [l for l in c[side][gi]["links"] if l[0] in ids or l[0] == 0]
+                        yield c
+        if n > 40 or any(g is not None and len(g["nodes"]) > 40 for g in case["golds"] + case["tests"]):
+            return                                       # one-by-one deletion is too slow at this size
         for i in range(n):
             c = copy.deepcopy(case)
             c["golds"] = c["golds"][:i] + c["golds"][i + 1:]
